@@ -324,6 +324,17 @@ class Hub:
         await self.settle()
         return outcomes
 
+    async def raw_values(self):
+        """what each port's driver reads at this moment (the harness ports, virtual ports and the mock peripheral ports read
+        without side effects)"""
+        out = {}
+        for p in self.core_ports.get_all():
+            try:
+                out[p.get_id()] = _jsonable(await p.read_value())
+            except Exception:  # noqa: BLE001
+                out[p.get_id()] = None
+        return out
+
     def parse_table(self, docs_list):
         """the real parser on every expression / transform text that occurs (and on what it prints):
         [port id, text, role, ok, printed, ids of the $port nodes in the order check_loops visits them]"""
@@ -428,6 +439,7 @@ async def run_job(hub, job):
     for name in job.get('restore', ['device', 'peripherals', 'devices', 'ports']):
         if name == 'ports':
             res['mid'] = await hub.docs()     # the hub PUT /ports acts on (peripherals and slaves already restored)
+            res['mid_raw'] = await hub.raw_values()
         doc = copy.deepcopy(sent[name])
         res['sent'][name] = copy.deepcopy(doc)
         res['put'][name] = await hub.restore(name, doc)
@@ -436,6 +448,7 @@ async def run_job(hub, job):
     res['immediately'] = await hub.docs()
     if not res['mid']:
         res['mid'] = res['immediately']
+        res['mid_raw'] = await hub.raw_values()
     hub.core_main.enable_updating()          # a hub left with polling disabled would otherwise never settle; flags are recorded above
     hub.core_events.enable()
     res['settled'] = await hub.settle()
